@@ -150,6 +150,38 @@ def check_header(acc, g):
     if getters != (f["version"], f["flags"], f["code"], f["app_id"], f["hbh"], f["e2e"]):
         acc.violation("header-getters", "getters %r for fields %r" % (getters, f), {"fields": f})
     acc.case("header/%s" % "".join("b" if isinstance(v, bytes) else "i" for v in kw.values()))
+    # the Command Flags are also set bit by bit: each setter changes its own bit and nothing else, the predicates read the
+    # same byte, and the header serialises with it.  A setter may refuse (library error) what its rules exclude - R with E,
+    # a bit that is already in the requested state - and then leaves the header as it was.
+    flags = f["flags"]
+    BITS = {"request": 0x80, "proxiable": 0x40, "error": 0x20, "retransmitted": 0x10}
+    trace = []
+    for _ in range(r.randrange(0, 7)):
+        name = r.choice(list(BITS))
+        state = r.random() < 0.5
+        bit = BITS[name]
+        must = bool(flags & bit) != state and not (name == "request" and flags & 0x20) and not (name == "error" and flags & 0x80)
+        trace.append("%s=%s" % (name, state))
+        try:
+            getattr(h, "set_%s_bit" % name)(state)
+            done = True
+        except BaseException as ex:
+            if type(ex).__module__ != "bromelia.exceptions":
+                acc.violation("header-flag-setter-raises-%s" % type(ex).__name__, "set_%s_bit(%r) on flags %#04x raised %r" % (name, state, flags, ex), {"fields": f, "trace": trace})
+                return
+            done = False
+            if must:
+                acc.violation("header-flag-setter-refuses:%s" % name, "set_%s_bit(%r) on flags %#04x was refused: %r" % (name, state, flags, ex), {"fields": f, "trace": trace})
+                return
+        if done:
+            flags = (flags | bit) if state else (flags & ~bit & 0xff)
+        acc.counters["header_flag_ops"] += 1
+        want = R.encode(R.LMsg(f["version"], flags, f["code"], f["app_id"], f["hbh"], f["e2e"], []))
+        preds = (h.is_request(), h.is_proxiable(), h.is_error(), h.is_retransmitted())
+        if h.dump() != want or h.get_flags() != flags or preds != tuple(bool(flags & b) for b in BITS.values()):
+            acc.violation("header-flag-op:%s" % name, "after %s on a header with flags %#04x: dump %s, get_flags %#04x, predicates %r; expected flags %#04x" % (
+                trace, f["flags"], h.dump().hex(), h.get_flags(), preds, flags), {"fields": f, "trace": trace})
+            return
 
 
 def check_message(acc, g, maxavps):
@@ -426,7 +458,7 @@ def main(tier, seed):
                            "typed message classes are covered by C09 with the same oracle",
                            "in-domain values the library rejects with an exception are observed, not judged here (C10)"],
                           t0, extra_cov={"classes_covered": len(names) - len(zero), "classes_total": len(names)},
-                          require_counters=("avp_dumps", "header_dumps", "message_dumps", "request_answer_class_dumps", "post_construction_mutations", "message_mutations", "converted_copy_checks"))
+                          require_counters=("avp_dumps", "header_dumps", "message_dumps", "request_answer_class_dumps", "post_construction_mutations", "message_mutations", "converted_copy_checks", "header_flag_ops"))
 
 
 def replay(w):
